@@ -314,11 +314,15 @@ def wrappers(inner_name, mk_inner, quick):
       return rel_i(point, got, t)
     out.append(('region-infeasible', lambda: infeasible_experimenter.ParamRegionInfeasibleExperimenter(mk_inner(), num[0].name, infeasible_interval=(0.0, 0.5)), rel_region, True))
 
-  if len(objective) == 1:
+  if len(objective) == 1 and 'switch' not in [pc.name for pc in params]:     # (a switch over a switch would declare 'switch' twice)
     # switch between two copies
     def rel_sw(point, got, t):
       inner_point = {k: v for k, v in point.items() if k != 'switch'}
       want, _ = inner_at(inner_point)
+      if (got is None) != (want is None):
+        # the wrapper hands the selected experimenter the whole trial, switch parameter included; an experimenter whose
+        # verdict depends on every parameter it is given (hashing) may legitimately answer for that trial
+        want, _ = inner_at(point)
       if got is None or want is None:
         return None if got is want else 'feasibility differs'
       return None if math.isclose(got['switch_metric'], want[objective[0]], rel_tol=1e-12, abs_tol=1e-12) else 'switch point %r: got %s, inner gives %s' % (point, got, want)
@@ -524,7 +528,7 @@ def run(ctx):
   if ctx.quick:
     deep = ['bbob:Sphere:2', 'bbob:Rastrigin:2', 'branin', 'simplekd:corner:True', 'hartmann3', 'zdt:ZDT1']
     for n in names:
-      tasks.append({'bases': [n], 'quick': True, 'depth': 2 if n in deep else 1, 'depth2_filter': ['shifting', 'signflip', 'hypercube', 'discretizing', 'permuting', 'sparse', 'region-infeasible', 'normalizing']})
+      tasks.append({'bases': [n], 'quick': True, 'depth': 2 if n in deep else 1, 'depth2_filter': ['shifting', 'signflip', 'hypercube', 'discretizing', 'permuting', 'sparse', 'region-infeasible', 'normalizing'] + (['switch', 'multiobjective'] if n == deep[0] else [])})
   else:
     for n in names:
       tasks.append({'bases': [n], 'quick': False, 'depth': 2, 'depth2_filter': None})
